@@ -97,8 +97,8 @@ SecOf(s, k) == SelectSeq(s.rrs, LAMBDA x : x.sec = k)
 RECURSIVE Lit(_, _, _)
 Lit(msg, off, acc) ==       \* literal label starts of the name field at off, its pointer (or 0), and its end
   LET len == At(msg, off) IN
-  IF len >= 192 THEN [starts |-> acc, ptr |-> (len - 192) * 256 + At(msg, off + 1), end |-> off + 2]
-  ELSE IF len = 0 THEN [starts |-> acc, ptr |-> 0, end |-> off + 1]
+  IF len >= 192 THEN [starts |-> acc, has |-> TRUE, ptr |-> (len - 192) * 256 + At(msg, off + 1), end |-> off + 2]
+  ELSE IF len = 0 THEN [starts |-> acc, has |-> FALSE, ptr |-> 0, end |-> off + 1]
   ELSE Lit(msg, off + len + 1, acc \cup {off})
 \* name fields of n RRs starting at cur: [off, may (pointer permitted), idx (record index in message order)]
 RECURSIVE FieldsOfRRs(_, _, _, _, _)
@@ -130,7 +130,8 @@ PtrCheck(msg, fields, i, known, disabled) ==
   IF i > Len(fields) THEN TRUE
   ELSE LET f == fields[i]
            o == Lit(msg, f.off, {}) IN
-       /\ (o.ptr # 0 => (f.may /\ o.ptr \in known /\ o.ptr < f.off /\ f.idx \notin disabled))
+       \* (a pointer to offset 0 is a pointer too: "has", not "ptr # 0")
+       /\ (o.has => (f.may /\ o.ptr \in known /\ o.ptr < f.off /\ f.idx \notin disabled))
        /\ PtrCheck(msg, fields, i + 1, known \cup o.starts, disabled)
 PointersOk(msg, disabled) ==
   LET q == FieldsOfQs(msg, 12, U16(msg, 4), <<>>, 1)
